@@ -599,6 +599,10 @@ func (tdsChan *Channel) QueuePackage(ctx context.Context, pkg Package) error {
 	}
 
 	if err := pkg.WriteTo(tdsChan.queueTx); err != nil {
+		// Whatever the package wrote before it failed would be sent as
+		// part of the next message.
+		tdsChan.queueTx.Reset()
+		tdsChan.lastPkgTx = nil
 		return fmt.Errorf("error queueing packets from package %s: %w", pkg, err)
 	}
 	if tdsChan.tdsConn.info.DebugLogPackages {
